@@ -200,6 +200,8 @@ CLAIM = {
             "exactly one entry per candle; the single value is the same expression as the series' last entry (equal hash => equal "
             "value; `None if isnan` idiom accepted; a single value that ignores the newest candle is a violation); with a shortened "
             "warm-up window the single value on a longer input depends only on the trailing window (slice_candles applied). "
-            "Structurally different single-value computations on the same inputs are reported as undecided. Default parameters and shifted periods.",
+            "Structurally different single-value computations on the same inputs are refuted by witness evaluation or reported as undecided. "
+            "Default parameters, shifted and smallest periods, a recursive matype, and a short input (10 candles: one entry per candle, a "
+            "series, and sequential must not be the only call that raises).",
     "note": "Trusted: numpy model; structural equality as a sufficient condition for value equality; source types other than the default are not varied.",
 }
